@@ -83,6 +83,42 @@ def tmp_page_fill_join(res, widths=(1, 2, 3, 4, 5, 6)):
     return fails
 
 
+def wide_joined_rows(res, widths=(1500, 2024, 2025, 2600, 3500), repeats=10):
+    """three-table joins whose intermediate result rows are wider than a page (two strings of W bytes each): when the planner builds the
+    second hash join from the first join's output, a build-side row does not fit even into an empty temporary page"""
+    fails = []
+    for w in widths:
+        db = DB(mem_kb=4000)
+        try:
+            if not db.open().startswith("ok"):
+                return [("open", "database does not start: %s" % db.dead)]
+            db.cmd("mktable w1 a:i:n,s:s:n"); db.cmd("mktable w2 b:i:n,u:s:n"); db.cmd("mktable w3 c:i:n,d:i:n")
+            for i in (1, 2, 3):
+                db.cmd("rawinsert w1 i:%d s:%s" % (i, (bytes([96 + i]) * (w - i)).hex()))
+                db.cmd("rawinsert w2 i:%d s:%s" % (i, (bytes([64 + i]) * (w + i)).hex()))
+            for i in range(1, 6):
+                db.cmd("rawinsert w3 i:%d i:%d" % (i, i * 10))
+            db.cmd("stats")
+            sql = "SELECT w1.a, w1.s, w2.u, w3.d FROM w1, w2, w3 WHERE w1.a = w2.b AND w2.b = w3.c;"
+            want = "ok:" + ";".join(sorted("i:%d,s:%s,s:%s,i:%d" % (i, (bytes([96 + i]) * (w - i)).hex(), (bytes([64 + i]) * (w + i)).hex(), i * 10) for i in (1, 2, 3)))
+            shapes = set()
+            for _ in range(repeats):
+                shape = db.cmd("plan " + sql)
+                got = canon_rows(db.sql(sql, timeout=60))
+                shapes.add(shape)
+                res.evaluations += 1
+                if got != want or db.dead:
+                    fails.append(("# tables w1(a int, s), w2(b int, u), w3(c int, d int) without indexes, 3 rows with strings of about %d bytes each (rawinsert), 5 rows in w3; plan %s\n%s" % (w, shape, sql),
+                                  "join whose intermediate rows are %d bytes wide: engine answers %s, expected the 3 combinations" % (2 * w + 24, (db.dead or got)[:200])))
+                    break
+            res.note_case("wide joined rows w=%d %s" % (w, sorted(shapes)), True)
+            if fails:
+                break
+        finally:
+            db.destroy()
+    return fails
+
+
 def small_pool_dml(res, rng, frames=32, steps=60, fails=None, nrows=250):
     fails = fails if fails is not None else []
     m = Mirror(rng, mem_kb=frames * 4)
